@@ -210,4 +210,94 @@ theorem c14_location_rebuild_order_independent (cfg : RichCfg) (secs : List RSec
   rw [rebuildMrgn_eq_core cfg secs table o1 hsec hany, rebuildMrgn_eq_core cfg secs table o2 hsec hany]
   exact mrgnCore_perm cfg table _ _ hperm
 
+/-! ### the same for unit-property sets -/
+
+def cuPlacementOf (b : List RCuwp) : List RCuwp := b.filter (·.idx.isSome) ++ b.filter (·.idx.isNone)
+def cuReqsOf (b : List RCuwp) : List Req := (cuPlacementOf b).map fun c => match c.idx with | some i => Req.carry i | none => Req.fresh
+def cuPlacedOf (placement : List RCuwp) (ress : List Res) : List RCuwp :=
+  (placement.zip ress).filterMap fun (c, r) => match r with
+    | .placed s => some { c with idx := some s }
+    | .skipped => none
+
+/-- the part of `rebuildUprp` after the sets that need a slot have been collected and ordered -/
+def uprpCore (cfg : RichCfg) (table : List RCuwp) (need : List RCuwp) : R (List RCuwp) :=
+  match allocate cfg.uprpCfg (table.filterMap (·.idx)) (cuReqsOf need) with
+  | .error e => .error e
+  | .ok (ress, _) => .ok (table ++ cuPlacedOf (cuPlacementOf need) ress)
+
+theorem rebuildUprp_eq_core (cfg : RichCfg) (secs : List RSection) (table : List RCuwp) (o : Option (List Nat))
+    (hsec : secs.filter (isSectionNamed nUPRP) = [.uprp table]) (hany : table.any (·.idx.isNone) = false) :
+    rebuildUprp cfg secs o =
+      uprpCore cfg table ((allocOrder o (dedupBy (fun a b => a.key == b.key)
+        ((secs.filter (fun s => !isSectionNamed nUPRP s)).flatMap (sectionCuwps cfg)))).filter
+          fun c => c.idx.isSome || !(table.any fun t => t.key == c.key)) := by
+  unfold rebuildUprp
+  simp only [hsec, hany, Bool.false_eq_true, ↓reduceIte]
+  rfl
+
+theorem cu_placed_idx_eq (placement : List RCuwp) (ress : List Res) (h : ress.length = placement.length) :
+    (cuPlacedOf placement ress).filterMap (·.idx) = placedSlots ress := by
+  unfold cuPlacedOf
+  induction placement generalizing ress with
+  | nil => cases ress with
+    | nil => rfl
+    | cons _ _ => simp at h
+  | cons l ls ih =>
+    cases ress with
+    | nil => simp at h
+    | cons r rs =>
+      have h' : rs.length = ls.length := by simpa using h
+      cases r with
+      | placed s => simp only [List.zip_cons_cons, List.filterMap_cons, placedSlots]; rw [ih rs h']
+      | skipped => simp only [List.zip_cons_cons, List.filterMap_cons, placedSlots]; exact ih rs h'
+
+theorem uprpCore_perm (cfg : RichCfg) (table b1 b2 : List RCuwp) (hb : b1.Perm b2) :
+    ((∃ e, uprpCore cfg table b1 = .error e) ↔ (∃ e, uprpCore cfg table b2 = .error e)) ∧
+    ∀ l1 l2, uprpCore cfg table b1 = .ok l1 → uprpCore cfg table b2 = .ok l2 →
+      l1.take table.length = table ∧ l2.take table.length = table ∧
+      (l1.filterMap (·.idx)).Perm (l2.filterMap (·.idx)) := by
+  have hR : (cuReqsOf b1).Perm (cuReqsOf b2) := ((hb.filter _).append (hb.filter _)).map _
+  have hA := allocate_perm cfg.uprpCfg (table.filterMap (·.idx)) hR
+  unfold uprpCore
+  cases ha1 : allocate cfg.uprpCfg (table.filterMap (·.idx)) (cuReqsOf b1) with
+  | error e1 =>
+    obtain ⟨e2, h2⟩ := hA.1.mp ⟨e1, ha1⟩
+    simp [h2]
+  | ok p1 =>
+    obtain ⟨r1, s1⟩ := p1
+    cases ha2 : allocate cfg.uprpCfg (table.filterMap (·.idx)) (cuReqsOf b2) with
+    | error e2 =>
+      obtain ⟨e1, h1⟩ := hA.1.mpr ⟨e2, ha2⟩
+      rw [ha1] at h1; cases h1
+    | ok p2 =>
+      obtain ⟨r2, s2⟩ := p2
+      refine ⟨by simp, ?_⟩
+      intro l1 l2 h1 h2
+      simp only [Except.ok.injEq] at h1 h2
+      subst h1; subst h2
+      have hp := (hA.2 r1 s1 r2 s2 ha1 ha2).2.2
+      have hl1 : r1.length = (cuPlacementOf b1).length := by
+        have := allocRun_length _ _ ha1
+        rw [carriedFirst_length] at this; simpa [cuReqsOf] using this
+      have hl2 : r2.length = (cuPlacementOf b2).length := by
+        have := allocRun_length _ _ ha2
+        rw [carriedFirst_length] at this; simpa [cuReqsOf] using this
+      refine ⟨by simp, by simp, ?_⟩
+      rw [List.filterMap_append, List.filterMap_append, cu_placed_idx_eq _ r1 hl1, cu_placed_idx_eq _ r2 hl2]
+      exact (List.Perm.refl _).append hp
+
+/-- **C14 for saves that add unit-property sets**: under any two iteration orders of the same batch, both
+rebuilds fail or both succeed, both keep the stored table as prefix, and both occupy the same set of slots -/
+theorem c14_unit_property_rebuild_order_independent (cfg : RichCfg) (secs : List RSection) (table : List RCuwp)
+    (hsec : secs.filter (isSectionNamed nUPRP) = [.uprp table]) (hany : table.any (·.idx.isNone) = false)
+    (o1 o2 : Option (List Nat))
+    (hperm : (allocOrder o1 (dedupBy (fun a b => a.key == b.key) ((secs.filter (fun s => !isSectionNamed nUPRP s)).flatMap (sectionCuwps cfg)))).Perm
+             (allocOrder o2 (dedupBy (fun a b => a.key == b.key) ((secs.filter (fun s => !isSectionNamed nUPRP s)).flatMap (sectionCuwps cfg))))) :
+    ((∃ e, rebuildUprp cfg secs o1 = .error e) ↔ (∃ e, rebuildUprp cfg secs o2 = .error e)) ∧
+    ∀ l1 l2, rebuildUprp cfg secs o1 = .ok l1 → rebuildUprp cfg secs o2 = .ok l2 →
+      l1.take table.length = table ∧ l2.take table.length = table ∧
+      (l1.filterMap (·.idx)).Perm (l2.filterMap (·.idx)) := by
+  rw [rebuildUprp_eq_core cfg secs table o1 hsec hany, rebuildUprp_eq_core cfg secs table o2 hsec hany]
+  exact uprpCore_perm cfg table _ _ (hperm.filter _)
+
 end Richchk.Props.C14
